@@ -3,7 +3,7 @@
 
   Definitions: `Gen/RTransform.lean` (regenerated from rtransform.py on every run).
   The constructor checks `0 < a`, `0 < b`.  The class declares the domain `(0, ∞)`, but every method
-  rejects an array with `b (size - 1) ≥ 1` (`*_raises` in the Gen file): the map is used on the points
+  rejects an argument with `b (np.size(x) - 1) ≥ 1` (`*_raises` in the Gen file): the map is used on the points
   `0, 1, …, size-1`, all below `1/b`.  On `[0, 1/b)` it is an increasing bijection onto `[0, ∞)`; beyond the
   pole `1/b` it is negative.  The theorems are stated on the *domain of use* `0 < x < 1/b`
   (reading of "domain of use" in the property, DESIGN C03); the end point theorems are for `0` and `x → 1/b`.
@@ -32,6 +32,13 @@ theorem below_pole_of_not_raises (t : HyperbolicRTransform ℝ) (ht : t.Admissib
   rw [admissible_iff] at ht
   simp only [HyperbolicRTransform.transform_raises, Nat.cast_one, ge_iff_le, not_le] at h
   nlinarith [ht.2]
+
+/-- A scalar argument (`np.size(x) = 1`) never trips the size guard of any of the five methods. -/
+theorem scalar_not_raises (t : HyperbolicRTransform ℝ) (x : ℝ) :
+    ¬ t.transform_raises 1 x ∧ ¬ t.inverse_raises 1 x ∧ ¬ t.deriv_raises 1 x ∧ ¬ t.deriv2_raises 1 x ∧
+      ¬ t.deriv3_raises 1 x := by
+  simp [HyperbolicRTransform.transform_raises, HyperbolicRTransform.inverse_raises, HyperbolicRTransform.deriv_raises,
+    HyperbolicRTransform.deriv2_raises, HyperbolicRTransform.deriv3_raises]
 
 theorem transform_eq (t : HyperbolicRTransform ℝ) : t.transform = fun y => t.a * y / (1 - t.b * y) := by
   funext y; simp only [HyperbolicRTransform.transform]; rt_norm
